@@ -5,7 +5,7 @@ import vlib, histlib, arenalib
 def run(res, tier, seed, replay):
     res.cov["rule"] = ("real (the library's own allocator against the real kernel, mmap/munmap interposed, forked children): synthetic targets with the +-128 MiB window left empty, reserved completely (installation must panic 'Failed to allocate JIT memory' "
                        "with the function's bytes untouched and no mapping left), or reserved except ONE free page at a random offset / at the lowest / at the highest acceptable address / at exactly +-128 MiB of a page-aligned target (just outside: must fail cleanly); targets below 128 MiB (window clipped at zero); a second installation "
-                       "when the only page is taken; scripted kernels: always MAP_FAILED; every hint ignored and answered with one block that is a multiple of 4 GiB plus 4 MiB away from the function (near modulo 2^32, out of reach in fact). Monitors: exactly one mapping kept per completed installation and within +-128 MiB, every rejected placement "
+                       "when the only page is taken; forced booleans on functions terabytes apart (each needs its own trampoline within reach); scripted kernels: always MAP_FAILED; every hint ignored and answered with one block that is a multiple of 4 GiB plus 4 MiB away from the function (near modulo 2^32, out of reach in fact). Monitors: exactly one mapping kept per completed installation and within +-128 MiB, every rejected placement "
                        "munmapped, nothing mapped and nothing written after a failed installation; the extracted allocation loop runs on the observed kernel answers and must produce the same mmap/munmap sequence (hints included); distinct = distinct (mode, outcome)")
     res.cov["trusted_base"] = vlib.TRUSTED_COMMON + ["harness/real interposers and window reservation (PROT_NONE, MAP_FIXED_NOREPLACE)", "Linux mmap hint semantics are NOT assumed: the kernel's answers are inputs of the model"]
     res.assumptions = ["user-space source address (src + 128 MiB + page < 2^64)", "AArch64: the composite claim (B reaches the accepted placement) rests on C15's theorem; the allocator accepts |d| <= 128 MiB inclusive, see known_findings for d = +128 MiB"]
@@ -22,7 +22,15 @@ def run(res, tier, seed, replay):
                 # a kernel that ignores every hint and answers with a block k * 4 GiB + 4 MiB away (near modulo 2^32, far in fact): must fail cleanly
                 ("n2 r0,r1,fk0,fk1,fk2,fk3 I:r1:raw:0,I:r0:rawalias:0", [["I:r1:raw:0", "I:r0:rawalias:0"]]),
                 ("n3 r2,fk0,fk1,fk2,fk3 I:r2:rawalias:0|I:r2:raw:1,C:r2", [["I:r2:rawalias:0"], ["I:r2:raw:1", "C:r2"]])]
-    histlib.check_histories(res, "c11", 0, seed + 11, "sys", extra_lines=cases + scripted)
+    # forced booleans on functions that are far from each other (one in the program, one in a code arena terabytes away): every installation
+    # gets a trampoline of its own within reach of ITS function
+    farb = []
+    for i in range(3 if tier == "quick" else 40):
+        B = arenalib.region(r); t = B + r.choice([0, 64, 4000])
+        ops = ["I:b0:bool:1", "C:b0", "I:t0:bool:1", "C:t0", "I:b1:bool:0", "I:t0:bool:0", "C:t0", "C:b1"]
+        r.shuffle(ops)
+        farb.append((f"fb{i} A={B:x}/2,F={t:x}/1,S,t0@{t:x},b0,b1,fk0,fk1,fk2,fk3 " + ",".join(ops) + "|I:t0:bool:1,I:b0:bool:1", [ops, ["I:t0:bool:1", "I:b0:bool:1"]]))
+    histlib.check_histories(res, "c11", 0, seed + 11, "sys", extra_lines=cases + scripted + farb)
     res.extra["layout_modes"] = {m: modes.count(m) for m in set(modes)}
     # known corner recorded in known_findings.json (AArch64 only; cannot be run here)
     for k in vlib.known_findings("C11"):
